@@ -78,6 +78,16 @@ func TestSweep(t *testing.T) {
 				}
 			}
 		}
+		// a buffer grown to a partial last frame offered to a pool of the whole frames below its length
+		if c1 >= 2 {
+			for _, tn := range names {
+				for pre := 1; pre < c1; pre++ {
+					for srcN := 1; srcN <= 40; srcN++ {
+						Oracle.One(t, env, rec, "sweep", &Case{Entry: "put", S: tn, C1: c1, C2: 1, F1: 1, PutKind: "grownPartial", P1: pre, F2: srcN, PrePut: srcN%2 == 0})
+					}
+				}
+			}
+		}
 		for _, tn := range names {
 			for _, pk := range []string{"otherK", "smallerK", "otherC", "laterFrame", "grown"} {
 				for _, pre := range []bool{false, true} {
